@@ -138,6 +138,27 @@ def replay_back(dreye, st, s, nexc, bad, where0):
                     bad.append(("C07.poisson-optimum", dict(nfree=len(r["F"]), **w), q.tolist(), pred.tolist(), r))
         except Exception as ex:
             bad.append(("C07.no-error", dict(exc=type(ex).__name__, **w), None, repr(ex)[:200], None))
+    # the same certified optima in other physical units (functional API): intensities in units s times larger, captures
+    # in units c times smaller; asserted when the twin stays in the well-scaled regime (captures <= 100, ub >= 0.05)
+    from dreye.api.optimize.lsq_linear import lsq_linear
+    Kf = None if K is None else np.atleast_1d(K)
+    rs = [r for r in recs if all(v == 1 for v in r["w"])]
+    qmax = max((max(r["q"]) for r in rs), default=0) / S
+    for sc, cc in ((20.0, 50.0), (20.0, 10.0), (0.5, 2.0)):
+        if not rs or qmax * cc > 100.0 or np.min(ub) / sc < 0.05 or np.max(ub) / sc > 10.0:
+            continue
+        w = dict(model="poisson", back=True, twin=[sc, cc], **where0)
+        try:
+            Bt = np.array([[a / b for a, b in zip(r["pbn"], r["pbd"])] for r in rs]) * cc
+            Xt, Bpt = lsq_linear(A * (sc * cc), Bt, lb=lb / sc, ub=ub / sc, K=Kf, baseline=(None if bl is None else np.asarray(bl) * cc),
+                                 model="poisson", return_pred=True)
+            nfit += len(rs)
+            for k, r in enumerate(rs):
+                q = np.asarray(r["q"], float) / S * cc
+                if np.max(np.abs(np.asarray(Bpt, float)[k] - q)) > TOL_BACK_P * cc:
+                    bad.append(("C07.poisson-optimum", dict(nfree=len(r["F"]), **w), q.tolist(), np.asarray(Bpt, float)[k].tolist(), r))
+        except Exception as ex:
+            bad.append(("C07.no-error", dict(exc=type(ex).__name__, **w), None, repr(ex)[:200], None))
     # per-sample weights registered with the targets, in- and out-of-gamut rows interleaved in one call: every
     # certified row must be fitted with the weights of its own row
     rw = [r for r in recs if any(v != 1 for v in r["w"])][:1]
